@@ -10,12 +10,14 @@ package main
 import (
 	"bufio"
 	"bytes"
+	"context"
 	"encoding/hex"
 	"fmt"
 	"io"
 	"os"
 	"os/exec"
 	"runtime"
+	"runtime/debug"
 	"strconv"
 	"strings"
 	"sync"
@@ -26,8 +28,14 @@ import (
 	"vharness/kit"
 )
 
+const (
+	workerSoftLimit = 1 << 30 // GOMEMLIMIT of the worker
+	workerMaxCalls  = 20000   // a worker is replaced after this many inputs
+)
+
 type resp struct {
-	status string // ok | panic | died | timeout
+	status string // ok | panic | died | timeout | skipped
+	note   string // "death not reproduced" / "timeout not reproduced": the answer comes from a second run of the input alone
 	alloc  uint64
 	out    string
 	extra  string
@@ -81,9 +89,14 @@ func workerMain() {
 	if diag {
 		runtime.MemProfileRate = 1 // record every allocation: the answer's extra field names the largest one's stack
 	}
+	// keep the garbage of earlier inputs bounded, so that a later innocent allocation cannot hit the
+	// address-space limit: soft memory limit for the collector, memory handed back to the OS after a
+	// call that made the process grow, and a fresh process when that does not help or after many calls
+	debug.SetMemoryLimit(workerSoftLimit)
 	rd := bufio.NewReaderSize(os.Stdin, 1<<20)
 	w := bufio.NewWriter(os.Stdout)
 	var m0, m1 runtime.MemStats
+	calls := 0
 	for {
 		line, err := rd.ReadString('\n')
 		if line = strings.TrimRight(line, "\n"); line != "" {
@@ -105,6 +118,18 @@ func workerMain() {
 			}
 			fmt.Fprintf(w, "%s\t%d\t%s\t%s\n", status, m1.TotalAlloc-m0.TotalAlloc, out, extra)
 			w.Flush()
+			calls++
+			recycle := calls >= workerMaxCalls
+			if m1.Sys > workerSoftLimit/2 {
+				debug.FreeOSMemory()
+				runtime.ReadMemStats(&m1)
+				recycle = recycle || m1.Sys-m1.HeapReleased > workerSoftLimit/2
+			}
+			if recycle && !diag {
+				fmt.Fprintln(w, "recycle")
+				w.Flush()
+				return
+			}
 		}
 		if err != nil {
 			return
@@ -208,6 +233,33 @@ func (t *headBuf) head() string {
 	return strings.Join(lines, " | ")
 }
 
+// runAlone: one input in a fresh worker process of its own.
+func (h *harness) runAlone(entry string, in []byte) resp {
+	ctx, cancel := context.WithTimeout(context.Background(), deadline)
+	defer cancel()
+	cmd := exec.CommandContext(ctx, h.self)
+	cmd.Env = append(os.Environ(), "VH_C16_WORKER=1", "VH_C16_AS="+strconv.FormatUint(asLimit, 10), "VH_C16_SANDBOX="+h.sandbox)
+	cmd.Stdin = strings.NewReader(entry + " " + kit.Hex(in) + "\n")
+	errBuf := &headBuf{}
+	cmd.Stderr = errBuf
+	outb, err := cmd.Output()
+	if ctx.Err() != nil {
+		return resp{status: "timeout"}
+	}
+	line := strings.SplitN(string(outb), "\n", 2)[0]
+	f := strings.SplitN(line, "\t", 4)
+	if len(f) != 4 {
+		st := "exit"
+		if cmd.ProcessState != nil {
+			st = cmd.ProcessState.String()
+		}
+		_ = err
+		return resp{status: "died", out: st + ": " + errBuf.head(), extra: errBuf.all()}
+	}
+	a, _ := strconv.ParseUint(f[1], 10, 64)
+	return resp{status: f[0], alloc: a, out: f[2], extra: f[3]}
+}
+
 // runBatch sends the inputs to a worker process and collects one answer per input. A worker
 // that dies or does not answer within the deadline is replaced; the input it was working on
 // gets status "died" / "timeout".
@@ -280,9 +332,21 @@ func (h *harness) runBatch(entry string, ins [][]byte) []resp {
 			case l, ok := <-lines:
 				if !ok {
 					cmd.Wait()
-					out[i] = resp{status: "died", out: cmd.ProcessState.String() + ": " + errBuf.head(), extra: errBuf.all()}
-					h.deaths[entry]++
+					// the death is attributed to this input only if it happens again when the input runs
+					// alone in a fresh process (else: memory pressure left behind by earlier inputs)
+					first := cmd.ProcessState.String() + ": " + errBuf.head()
+					out[i] = h.runAlone(entry, ins[i])
+					if out[i].status == "died" {
+						h.deaths[entry]++
+					} else {
+						out[i].note = "death not reproduced (" + first + ")"
+					}
 					i++
+					break recv
+				}
+				if l == "recycle" { // the worker asks to be replaced: nothing was lost
+					cmd.Wait()
+					h.s.Count("worker:recycled")
 					break recv
 				}
 				h.deaths[entry] = 0 // consecutive deaths only
@@ -297,8 +361,12 @@ func (h *harness) runBatch(entry string, ins [][]byte) []resp {
 			case <-timer.C:
 				cmd.Process.Kill()
 				cmd.Wait()
-				out[i] = resp{status: "timeout"}
-				h.timeouts[entry]++
+				out[i] = h.runAlone(entry, ins[i])
+				if out[i].status == "timeout" {
+					h.timeouts[entry]++
+				} else {
+					out[i].note = "timeout not reproduced"
+				}
 				i++
 				break recv
 			}
